@@ -1027,7 +1027,11 @@ func (e *AnimEncoder) increasePreviousDuration(durMS int) error {
 	e.prevMuxIndex = e.muxer.NumFrames() - 1
 	e.frameCount++
 	e.countSinceKeyframe++
-	// prevCanvas and prevFrameRect remain unchanged since the canvas is identical.
+	// prevCanvas remains unchanged since the canvas is identical, but the frame
+	// at prevMuxIndex is now the 1x1 filler: a later dispose-to-background
+	// candidate sets the dispose flag on that frame, so it is the filler's
+	// rectangle that must be simulated as cleared.
+	e.prevFrameRect = image.Rect(0, 0, 1, 1)
 	return nil
 }
 
